@@ -288,6 +288,7 @@ struct HistEngine : Engine {
 		if (it != memo.end()) {
 			status = it->second.first;
 			out = it->second.second;
+			st.mix_value(status, out);
 			return true;
 		}
 		Plan q;
@@ -300,13 +301,14 @@ struct HistEngine : Engine {
 		q.input = input;
 		q.sched = base.sched;
 		RunResult r = run_plan(q);
-		st.add_probes(r);
+		st.add_ref(r);
 		if (r.crashed() || r.flags) {
 			why = r.status_str() + " " + r.note + " " + asan_summary(r.err);
 			return false;
 		}
 		status = r.exit_code;
 		out = r.out;
+		st.mix_value(status, out);
 		if (memo.size() < 100000)
 			memo[key] = {status, out};
 		return true;
